@@ -1,166 +1,70 @@
-(* The registry effect of as_obj (Model/RegistrySer.v): the invariant of C03 survives the forced-id path, with the
-   library's own eviction (forcing an id over a live entry) recorded in the ghost `det`.  For every H, every validation. *)
-From Oak Require Import Model.RegistrySer Proofs.RegistryProofs.
+(* The registry effect of as_obj.  Since the third round AsDict / AsObj are operations of `step` (Model/Registry.v) and the
+   lemmas the step proofs need live in Proofs/RegistryProofs.v (section "as_dict / as_obj": force_inv, deser_inv,
+   deser_spec, deser_never_evicts, deser_no_fuel, ser_total, deser_hpre).  This file re-exports them and adds the
+   corollaries about membership, the step `x = Cls.as_obj(d)`, and the witnesses of the pre-repair behaviour.
+   For every H, every validation. *)
+From Oak Require Import Model.RegistrySer.
+From Oak Require Export Proofs.RegistryProofs.
+From Oak Require Import Proofs.RegistryReach.
 
-Lemma set_nth_length {A} (x : A) : forall l n, length (set_nth n x l) = length l.
-Proof. induction l as [|y l IH]; intros [|n]; simpl; auto. Qed.
-Lemma set_nth_same {A} (x : A) : forall l n, n < length l -> nth_error (set_nth n x l) n = Some x.
-Proof. induction l as [|y l IH]; intros [|n] Hn; simpl in *; try lia; auto. apply IH. lia. Qed.
-Lemma set_nth_other {A} (x : A) : forall l n m, n <> m -> nth_error (set_nth n x l) m = nth_error l m.
-Proof. induction l as [|y l IH]; intros [|n] [|m] Hne; simpl; auto; try congruence. Qed.
-
-Section SerProofs.
+Section DeserCor.
   Variable H : pystr -> pystr.
   Variable ct : ctable.
   Variable late : st -> nat -> bool.
 
-  (* an id that is registered is answered by the registered node - the original if it is still alive, or whichever
-     node has meanwhile taken the id over (the premise "no other live node has taken over its id" of C04) *)
-  Theorem deser_registered fuel s i c o ps ks b : lookup i (reg s) = Some b ->
-    deser H ct late (S fuel) s (SNode i c o ps ks) = DOk s b.
-  Proof. intro E. simpl. now rewrite E. Qed.
-
-  (* forcing the serialized id onto the node just built *)
-  Theorem force_inv s a cl i : Inv0 s -> cell_at s a = Some cl -> In (k_id cl, a) (reg s) -> k_id cl <> i ->
-    Inv0 (force_id s a cl i).
-  Proof.
-    intros Hs Hc Hin Hne. pose proof Hs as [Hf Hok Hall Hdet Hb Hh Hro].
-    assert (Ha : a < length (heap s)) by (eapply cell_at_lt; eauto).
-    set (r1 := remove_id (k_id cl) (reg s)).
-    assert (Hr1 : forall j x, In (j, x) r1 <-> In (j, x) (reg s) /\ j <> k_id cl) by (intros; apply remove_in).
-    assert (Hn1 : NoDup (keys r1)) by now apply remove_nodup.
-    assert (Hcell : forall x, x <> a -> cell_at (force_id s a cl i) x = cell_at s x).
-    { intros x Hx. unfold cell_at; simpl. apply set_nth_other. congruence. }
-    assert (Hcella : cell_at (force_id s a cl i) a = Some (with_id cl i)).
-    { unfold cell_at; simpl. now apply set_nth_same. }
-    assert (Hown : forall j, In (j, a) (reg s) -> j = k_id cl).
-    { intros j Hj. destruct (Hok _ _ Hj) as [c' [Hc' <-]]. rewrite Hc in Hc'. now injection Hc' as <-. }
-    assert (Hdet' : forall x, In x (det (force_id s a cl i)) -> In x (det s) \/ In (i, x) r1).
-    { intros x. unfold force_id; simpl. fold r1. destruct (lookup i r1) as [b|] eqn:El; auto.
-      intros [<-|Hx]; auto. right. now apply lookup_in. }
-    constructor.
-    - simpl. fold r1. constructor; [|now apply remove_nodup]. intro Hk. apply remove_keys in Hk as [_ Hk]. congruence.
-    - intros j x. simpl. fold r1. intros [E|Hx].
-      + injection E as <- <-. exists (with_id cl i). auto.
-      + apply remove_in in Hx as [Hx Hji]. apply Hr1 in Hx as [Hx Hjc].
-        destruct (Nat.eq_dec x a) as [->|Hxa]; [apply Hown in Hx; congruence|].
-        rewrite (Hcell _ Hxa). now apply Hok.
-    - intros x cx Hx Hxd Hxg. simpl. fold r1. destruct (Nat.eq_dec x a) as [->|Hxa].
-      + rewrite Hcella in Hx. injection Hx as <-. left. reflexivity.
-      + rewrite (Hcell _ Hxa) in Hx. right. apply remove_in.
-        assert (Hd0 : ~ In x (det s)).
-        { intro Hd. apply Hxd. unfold force_id; simpl. fold r1. destruct (lookup i r1); simpl; auto. }
-        pose proof (Hall _ _ Hx Hd0 Hxg) as Hreg.
-        assert (Hkc : k_id cx <> k_id cl).
-        { intro E. rewrite E in Hreg. apply Hxa. apply (in_lookup _ _ _ Hf) in Hreg. apply (in_lookup _ _ _ Hf) in Hin. congruence. }
-        split; [apply Hr1; auto|]. intro E. apply Hxd. unfold force_id; simpl. fold r1.
-        assert (Hl : lookup i r1 = Some x) by (apply in_lookup; auto; apply Hr1; rewrite <- E; auto).
-        rewrite Hl. simpl. auto.
-    - intros j x. simpl. fold r1. intros [E|Hx].
-      + injection E as <- <-. destruct (Hdet _ _ Hin) as [Hd Hg]. split; auto. intro Hd'.
-        apply Hdet' in Hd' as [Hd'|Hd']; auto. apply Hr1 in Hd' as [Hd' _]. apply Hown in Hd'. congruence.
-      + apply remove_in in Hx as [Hx Hji]. apply Hr1 in Hx as [Hx Hjc]. destruct (Hdet _ _ Hx) as [Hd Hg]. split; auto.
-        intro Hd'. apply Hdet' in Hd' as [Hd'|Hd']; auto. apply Hr1 in Hd' as [Hd' _].
-        destruct (Hok _ _ Hx) as [c1 [Hc1 E1]]. destruct (Hok _ _ Hd') as [c2 [Hc2 E2]]. rewrite Hc1 in Hc2.
-        injection Hc2 as <-. congruence.
-    - intros x [Hx|Hx]; simpl; rewrite set_nth_length.
-      + apply Hdet' in Hx as [Hx|Hx]; [apply Hb; auto|]. apply Hr1 in Hx as [Hx _].
-        destruct (Hok _ _ Hx) as [c1 [Hc1 _]]. eapply cell_at_lt; eauto.
-      + apply Hb; auto.
-    - intros x cx Hx k Hk. destruct (Nat.eq_dec x a) as [->|Hxa].
-      + rewrite Hcella in Hx. injection Hx as <-. eapply Hh; eauto.
-      + rewrite (Hcell _ Hxa) in Hx. eapply Hh; eauto.
-    - intros r Hr. simpl. rewrite set_nth_length. now apply Hro.
-  Qed.
-
-  (* when nothing has taken the serialized id (the premise of the property), nobody is evicted: `det` is as it was *)
-  Theorem force_no_takeover s a cl i : lookup i (remove_id (k_id cl) (reg s)) = None ->
-    det (force_id s a cl i) = det s /\ get_any (force_id s a cl i) i = Some a.
-  Proof. intro E. unfold force_id, get_any; simpl. rewrite E, pystr_eqb_refl. auto. Qed.
-
-  (* no existing node is modified: only the node just built has its id overwritten *)
-  Theorem force_frame s a cl i x : x <> a -> cell_at (force_id s a cl i) x = cell_at s x.
-  Proof. intro Hx. unfold cell_at; simpl. apply set_nth_other. congruence. Qed.
-End SerProofs.
-
-Section DeserInv.
-  Variable H : pystr -> pystr.
-  Variable ct : ctable.
-  Variable late : st -> nat -> bool.
-
-  Definition len_le (s s' : st) : Prop := length (heap s) <= length (heap s').
-
-  (* as_obj - returning, or rejected half-way by a class's own validation - keeps the invariant of C03 *)
-  Theorem deser_inv : forall fuel s v, Inv0 s ->
-    match deser H ct late fuel s v with
-    | DOk s' a => Inv0 s' /\ len_le s s' /\ a < length (heap s')
-    | DLate s' => Inv0 s' /\ len_le s s'
-    | DFuel => True
-    end.
-  Proof.
-    induction fuel as [|f IH]; intros s v Hs; simpl; [exact I|]. destruct v as [i c o ps ks].
-    destruct (lookup i (reg s)) as [b|] eqn:El.
-    - split; auto. split; [unfold len_le; lia|]. apply lookup_in in El.
-      destruct (I_ok _ Hs _ _ El) as [cb [Hcb _]]. eapply cell_at_lt; eauto.
-    - pose (Q := fun (t : st) (y : nat) => y < length (heap t)).
-      pose (Q' := fun (t : st) (k : pystr * (kshape * list nat)) => Forall (Q t) (snd (snd k))).
-      assert (Rrefl : forall t, len_le t t) by (intro; unfold len_le; lia).
-      assert (Rtrans : forall a b c, len_le a b -> len_le b c -> len_le a c) by (unfold len_le; intros; lia).
-      assert (Qmono : forall t t' y, Q t y -> len_le t t' -> Q t' y) by (unfold Q, len_le; intros; lia).
-      assert (Q'mono : forall t t' y, Q' t y -> len_le t t' -> Q' t' y).
-      { intros t t' y Hq G. unfold Q' in *. eapply Forall_impl; [|exact Hq]. intros z Hz. eapply Qmono; eauto. }
-      assert (Hinner : forall t x, Inv0 t -> match deser H ct late f t x with
-                                              | DOk t' y => Inv0 t' /\ len_le t t' /\ Q t' y
-                                              | DLate t' => Inv0 t' /\ len_le t t'
-                                              | DFuel => True
-                                              end) by (intros t x Ht; exact (IH t x Ht)).
-      assert (Houter : forall t k, Inv0 t ->
-         match (match mapM_d (deser H ct late f) t (snd (snd k)) with
-                | DOk t' l => DOk t' (fst k, (fst (snd k), l))
-                | DLate t' => DLate t'
-                | DFuel => DFuel
-                end) with
-         | DOk t' y => Inv0 t' /\ len_le t t' /\ Q' t' y
-         | DLate t' => Inv0 t' /\ len_le t t'
-         | DFuel => True
-         end).
-      { intros t k Ht. pose proof (mapM_d_spec _ Inv0 len_le Q Rrefl Rtrans Qmono Hinner (snd (snd k)) t Ht) as M.
-        destruct (mapM_d (deser H ct late f) t (snd (snd k))) as [t1 l|t1|]; auto. }
-      pose proof (mapM_d_spec _ Inv0 len_le Q' Rrefl Rtrans Q'mono Houter ks s Hs) as M.
-      destruct (mapM_d _ s ks) as [s1 ks'|s1|]; auto.
-      destruct M as [Hs1 [G1 Hq]].
-      assert (Hbelow : kids_below (length (heap s1)) ks').
-      { intros k Hin. apply in_flat_map in Hin as [e [He Hk]]. rewrite Forall_forall in Hq.
-        specialize (Hq _ He). unfold Q' in Hq. rewrite Forall_forall in Hq. apply Hq. auto. }
-      destruct (construct H ct late s1 c o ps ks') as [s2 a|s2|] eqn:Eco; auto.
-      + apply construct_ok in Eco as [Ea _]. pose proof (alloc_inv H ct _ _ _ _ _ _ _ Hs1 Hbelow Ea) as Hs2.
-        pose proof Ea as Esh. apply alloc_shape in Esh as [i' [_ [Ha [_ Esh]]]].
-        assert (Hl2 : length (heap s2) = S (length (heap s1))) by (rewrite Esh; simpl; rewrite app_length; simpl; lia).
-        assert (Hc2 : cell_at s2 a = Some (mkcell H ct c o ps ks' i' (heap s1))).
-        { rewrite Esh, Ha. unfold cell_at; simpl. rewrite nth_error_app2, Nat.sub_diag by lia. reflexivity. }
-        rewrite Hc2. cbn [k_id mkcell]. destruct (pystr_eqb_spec i' i) as [->|Hne].
-        * split; auto. unfold len_le in *. split; lia.
-        * split; [apply force_inv; auto; rewrite Esh, Ha; simpl; auto|].
-          unfold len_le in *. simpl. rewrite set_nth_length. split; lia.
-      + apply construct_late in Eco as [a [Ea _]]. pose proof (alloc_inv H ct _ _ _ _ _ _ _ Hs1 Hbelow Ea) as Hs2.
-        split; auto. apply alloc_shape in Ea as [i' [_ [_ [_ ->]]]]. unfold len_le in *. simpl. rewrite app_length. lia.
-  Qed.
-
-  (* ... and so does the step "x = Cls.as_obj(d)" followed by the collection that ends every step *)
-  Corollary deser_step_inv fuel s v dst : RInv s ->
-    match deser H ct late fuel s v with
+  (* the step "x = Cls.as_obj(d)" followed by the collection that ends every step (either variant) *)
+  Corollary deser_step_inv fx fuel s v dst : RInv s ->
+    match deser H ct late fx fuel s v with
     | DOk s' a => RInv (gc (set_var s' dst (Some a)))
     | DLate s' => RInv (gc s')
     | DFuel => True
     end.
   Proof.
-    intros [Hs _]. pose proof (deser_inv fuel s v Hs) as M. destruct (deser H ct late fuel s v) as [s' a|s'|]; auto.
+    intros [Hs _]. pose proof (deser_inv H ct late fx fuel s v Hs) as M. destruct (deser H ct late fx fuel s v) as [s' a|s'|]; auto.
     - destruct M as [Hs' [_ Ha]]. apply gc_inv. apply set_var_inv; auto. intros a0 [= <-]. auto.
     - apply gc_inv. apply M.
   Qed.
-End DeserInv.
 
-(* ================= what the code does when the serialized id is taken over DURING the reading ================= *)
+  (* C10: the code in /repo changes the registry membership of NO node that existed before the call: an existing node is
+     found under an id afterwards exactly when it was found under it before *)
+  Theorem deser_membership fuel s v s' : Inv0 s ->
+    (deser H ct late true fuel s v = DLate s' \/ exists a, deser H ct late true fuel s v = DOk s' a) ->
+    forall j b, b < length (heap s) -> (get_any s' j = Some b <-> get_any s j = Some b).
+  Proof.
+    intros Hs Hr j b Hb. pose proof (deser_spec H ct late s Hs fuel s v (DP_refl s Hs)) as M.
+    assert (Hd : DP s s') by (destruct Hr as [E|[a E]]; rewrite E in M; apply M).
+    unfold get_any. split; intro E.
+    - apply lookup_in in E. destruct (dp_sup _ _ Hd _ E) as [Hin|Hge]; [|simpl in Hge; lia].
+      apply in_lookup; auto. apply (I_fun _ Hs).
+    - apply lookup_in in E. apply (dp_sub _ _ Hd) in E. apply in_lookup; auto. apply (I_fun _ (dp_inv _ _ Hd)).
+  Qed.
+
+  Lemma gc_lookup s2 j b : NoDup (keys (reg s2)) -> In (j, b) (reg s2) -> reachable s2 b = true ->
+    get_any (gc s2) j = Some b.
+  Proof.
+    intros Hn Hin Hr. unfold get_any. apply in_lookup; [now apply filter_keys_nodup|].
+    simpl. apply filter_In. split; auto.
+  Qed.
+
+  (* as a step: whatever the call does (the very same objects come back, a part is rebuilt, the serialized id is forced
+     or not, a class rejects a node half-way), a node that was found under its id before and is still referenced after
+     is found under that id after *)
+  Theorem asobj_step_never_evicts s slot dst s' r : RInv s -> step H ct late true s (AsObj slot dst) = (s', r) ->
+    forall j b, get_any s j = Some b -> reachable s' b = true -> get_any s' j = Some b.
+  Proof.
+    intros [Hs Hreach]. unfold step. pose proof (step_raw_inv H ct late s (AsObj slot dst) Hs) as Hi.
+    destruct (step_raw H ct late true s (AsObj slot dst)) as [s2 r2] eqn:Er. intros [= <- <-] j b E Hr.
+    simpl in Hi. apply gc_lookup; [apply (J_fun _ Hi)| |exact Hr].
+    apply lookup_in in E. revert Er. simpl.
+    destruct (negb _); [intros [= <- _]; auto|]. destruct (slot_get slot (slots s)) as [v|]; [|intros [= <- _]; auto].
+    pose proof (deser_spec H ct late s Hs (S (sdepth v)) s v (DP_refl s Hs)) as M. unfold asobj.
+    destruct (deser H ct late true (S (sdepth v)) s v) as [t a|t|]; simpl; intros [= <- _]; auto.
+    - simpl. apply (dp_sub _ _ (proj1 M)). exact E.
+    - apply (dp_sub _ _ (proj1 M)). exact E.
+  Qed.
+End DeserCor.
+
+(* ================= what the code did BEFORE the repair when the serialized id is taken over DURING the reading ===== *)
 (* digest with collisions (one character); x = A(1) is detached, p = B((x,)) is then built and - its digest colliding
    with x's - is given x's id; d = p.as_dict(); everything is dropped; p2 = B.as_obj(d): the child is re-created
    under the shared id, then the parent's fresh id differs from the serialized one and is forced - over the live
@@ -171,13 +75,34 @@ Definition evict_ops : list op :=
 Definition evict_s0 : st := run evict_H ex_ct no_late true (init_st 2) evict_ops.
 Definition evict_d : option sval := ser_st evict_s0 1.
 Definition evict_s1 : st := run evict_H ex_ct no_late true evict_s0 [Drop 0; Drop 1].
-Definition evict_res : dres nat :=
-  match evict_d with Some d => deser evict_H ex_ct no_late 3 evict_s1 d | None => DFuel end.
+Definition evict_res (fx : bool) : dres nat :=
+  match evict_d with Some d => deser evict_H ex_ct no_late fx 3 evict_s1 d | None => DFuel end.
 
 Lemma refuted_forced_id_evicts_child :
-  exists s' p, evict_res = DOk s' p /\ reg evict_s1 = [] /\
+  exists s' p, evict_res false = DOk s' p /\ reg evict_s1 = [] /\
     let s2 := gc (set_var s' 0 (Some p)) in
     tree_of s2 p = [3; 2] /\ reachable s2 2 = true /\
     option_map k_id (cell_at s2 2) = Some (lit "d") /\ option_map k_id (cell_at s2 3) = Some (lit "d") /\
     get_any s2 (lit "d") = Some 3 /\ In 2 (det s2) /\ det evict_s1 = [0].
 Proof. eexists _, _. split; [vm_compute; reflexivity|]. vm_compute. intuition. Qed.
+
+(* the code in /repo on the same input: the re-created child keeps the shared id and is found under it, the parent keeps
+   the unique id it was given (d_1) and is found under that; nobody is marked detached *)
+Lemma repaired_forced_id_keeps_child :
+  exists s' p, evict_res true = DOk s' p /\
+    let s2 := gc (set_var s' 0 (Some p)) in
+    tree_of s2 p = [3; 2] /\
+    option_map k_id (cell_at s2 2) = Some (lit "d") /\ option_map k_id (cell_at s2 3) = Some (lit "d_1") /\
+    get_any s2 (lit "d") = Some 2 /\ get_any s2 (lit "d_1") = Some 3 /\ det s2 = det evict_s1.
+Proof. eexists _, _. split; [vm_compute; reflexivity|]. vm_compute. intuition. Qed.
+
+(* the same two facts as HISTORIES of the machine (AsDict / AsObj are operations of `run`) *)
+Definition evict_hist : list op := evict_ops ++ [AsDict (1, 0) 0; Drop 0; Drop 1; AsObj 0 0].
+Lemma refuted_forced_id_history :
+  let s := run evict_H ex_ct no_late false (init_st 2) evict_hist in
+  vars s = [Some 3; None] /\ tree_of s 3 = [3; 2] /\ get_any s (lit "d") = Some 3 /\ In 2 (det s) /\ reachable s 2 = true.
+Proof. vm_compute. intuition. Qed.
+Lemma repaired_forced_id_history :
+  let s := run evict_H ex_ct no_late true (init_st 2) evict_hist in
+  vars s = [Some 3; None] /\ tree_of s 3 = [3; 2] /\ get_any s (lit "d") = Some 2 /\ get_any s (lit "d_1") = Some 3 /\ det s = [0].
+Proof. vm_compute. intuition. Qed.
